@@ -215,6 +215,8 @@ class Decls:
         en("Ordering", [Variant("Less", -1, [], "unit"), Variant("Equal", 0, [], "unit"), Variant("Greater", 1, [], "unit")])
         en("Sign", [Variant("Minus", 0, [], "unit"), Variant("NoSign", 1, [], "unit"), Variant("Plus", 2, [], "unit")])
         en("Infallible", [])
+        en("EitherOrBoth", [Variant("Both", 0, [(None, "A"), (None, "B")], "tuple"), Variant("Left", 1, [(None, "A")], "tuple"),
+                            Variant("Right", 2, [(None, "B")], "tuple")])
 
         def stc(name, fields):
             self.by_name.setdefault(name, []).insert(0, Decl(name, "struct", "<std>", fields=fields))
